@@ -29,10 +29,10 @@ CHECKS = {
  "C19": dict(engine="reasm", cat="exploration", ref="§5 C19",
    technique="interval-bracketed expiry oracle over recorded callbacks with real sleeps and monotonic call brackets; Close/Maintain-after-Close/nil-stream return-value checks",
    text="Each eviction decision is classified from the monotonic brackets of the creating call and the deciding call: certainly expired (must be delivered by this Maintain/PushMessage once it is the oldest), certainly fresh (must not be delivered on account of time), or uncertain (either accepted, counted separately). Close must flush everything once, in order, with loss accounting; later Maintain/Close must fail and deliver nothing; a nil Stream must be refused. The oracle is sound under arbitrary scheduling delay, so load cannot cause a false alarm.",
-   note="Trusted base: harness oracle, process-wide monotonic clock shared by harness and library. Decisions inside the uncertainty interval are not decided. Timeouts -1s, 0, 2/5/20 ms, 1h only."),
+   note="Trusted base: harness oracle, process-wide monotonic clock shared by harness and library. Decisions inside the uncertainty interval are not decided. Timeouts -2^63 ns, -1s, 0, 2/5/20 ms, 1h, 250 years, 2^63-1 ns. Maintain/Close made from inside the callbacks of the flushing Close count as made afterwards."),
  "C11": dict(engine="sched", cat="exploration", ref="§5 C11",
    technique="systematic schedule enumeration with a controlled scheduler on verif yield hooks (stateless DFS, exactly-once / one-Close / deadlock oracle per schedule) + randomised multi-goroutine stress under the Go race detector",
-   text="Every interleaving (at the granularity of the Reassembler's atomic steps) of all 625 two-goroutine x two-op programs, of re-entrant-callback variants, and preemption-bounded 3-goroutine programs is executed and checked: no message twice, single-sequence groups, exactly one Close succeeds, every message whose push returned before Close was invoked delivered exactly once, no self-deadlock (decided from a goroutine dump). Data races are decided separately by the race detector over stress runs whose hook only injects Gosched/spins (no synchronisation that could hide a race).",
+   text="Every interleaving (at the granularity of the Reassembler's atomic steps) of all 625 two-goroutine x two-op programs, of re-entrant-callback variants, and preemption-bounded 3-goroutine programs is executed and checked: no message twice, single-sequence groups, exactly one Close succeeds, every message whose push returned before Close was invoked delivered exactly once, no deadlock (the scheduled worker's own stack is polled: a wait for a go-libaudit mutex while every other worker is finished or between operations is a deadlock; a wait for a lock held by a worker parked inside an operation makes that choice infeasible and the schedule is dropped, counted). Callbacks re-enter Maintain / PushMessage, also from the Close flush. Data races are decided separately by the race detector over stress runs whose hook only injects Gosched/spins (no synchronisation that could hide a race).",
    note="Trusted base: scheduler + oracle in /verif/harness/internal/sched, Go race detector. Interleavings inside a locked region are reached only by the stress phase; larger programs are sampled, not enumerated."),
  "C04": dict(engine="logenc", cat="exploration", ref="§5 C04",
    technique="header round-trip oracle + closed must-error corruption list over generated log lines for all 65536 type codes",
@@ -60,7 +60,7 @@ CHECKS = {
    note="Trusted base: Go runtime fault/alloc accounting, the independent decoder for the post-condition. Over-reads inside the slice's own capacity are visible only to the ASan pass."),
  "C14": dict(engine="rulegen", cat="exploration", ref="§5 C14",
    technique="argv-accounting oracle: grammar-generated argument vectors joined with the harness's own POSIX quoting, interpreted independently, compared with flags.Parse's result",
-   text="For each generated argv the harness itself decides 'must be rejected' (mixed delete/watch/syscall flags, both or neither of -a/-A, positional words, repeated -w/-a/-A, malformed -a/-p/-F/-C arguments, unknown flags, missing arguments) or computes the exact rule a faithful parse returns (every admissible reading of a filter's operator is accepted). A returned rule must equal it; an error is always acceptable. The repo's 112 real rule lines must be accepted faithfully.",
+   text="For each generated argv the harness itself decides 'must be rejected' (mixed delete/watch/syscall flags, both or neither of -a/-A, positional words, repeated -w/-a/-A, malformed -a/-p/-F/-C arguments, unknown flags, missing arguments) or computes the exact rule a faithful parse returns (a filter's operator is the longest one at the first operator position that leaves a value). A returned rule must equal it; an error is always acceptable. The repo's 112 real rule lines must be accepted faithfully.",
    note="Trusted base: the harness's argv interpreter and quoting. Blanks around list items/filter parts are compared trimmed."),
  "C20": dict(engine="tables", cat="exploration", ref="§5 C20",
    technique="exhaustive run-time enumeration of every table entry with inverse / uniqueness / cross-table consistency assertions (verif export hook for the rule tables, independent YAML node walk, UAPI and x/sys spot tables)",
@@ -76,11 +76,11 @@ CHECKS = {
    note="Trusted base: internal/uapi offsets and numbers (self-tested against the system header)."),
  "C17": dict(engine="simkernel", cat="exploration", ref="§5 C17",
    technique="reference pending-ACK list + socket close counter + returned-data snapshots over seeded operation histories against a simulated kernel, executed under the race detector with concurrent Close",
-   text="A reference list of outstanding NoWait requests decides, for each WaitForPendingACKs call, how many ACK datagrams it must consume (up to and including the first failing one), what it returns, and that it never waits on an empty socket; Close from 1-8 goroutines plus later calls must close the socket exactly once and send exactly one PID-clearing AUDIT_SET iff SetPID was used, without waiting; rule slices from GetRules are compared with snapshots after all later traffic. Found and guards the pendingAcks defect (repaired); one known finding (WaitForReply command with NoWait ACKs outstanding).",
+   text="A reference list of outstanding NoWait requests decides, for each WaitForPendingACKs call, how many ACK datagrams it must consume (up to and including the first failing one), what it returns, and that it never waits on an empty socket; Close from 1-8 goroutines plus later calls must close the socket exactly once and send exactly one PID-clearing AUDIT_SET iff SetPID was used, without waiting; rule slices from GetRules are compared with snapshots after all later traffic; a request the transport refuses to send must be reported and leaves nothing pending. Found and guards the pendingAcks defect (repaired); one known finding (WaitForReply command with NoWait ACKs outstanding).",
    note="Trusted base: simulated kernel (in-order ACKs, one reused receive buffer), the reference list, Go race detector."),
  "C18": dict(engine="nlreal", cat="exploration", ref="§5 C18",
    technique="the live kernel's verbatim echo of rejected NETLINK_ROUTE requests as framing oracle; porcupine linearizability check of the recorded Send history against a fetch-and-increment model; spoofed datagrams from a second netlink socket; guard-page inputs for the audit message parser; all under the race detector (ASan in thorough)",
-   text="What Send really put on the wire is read back from the kernel's NLMSG_ERROR echo (length, type, flags, port id, sequence, payload) for payload lengths 0..8970 and arbitrary flags/types outside the live rtnetlink range; concurrent Send histories {call, return, value} must be linearizable as a counter; datagrams of every length 0..64 (and longer, ACK-shaped) from a non-kernel sender must yield an error and no message while a later kernel reply is still received; AuditClient.Receive must reject < 16 bytes and otherwise return the header type and everything after 16 bytes, never reading past the input.",
+   text="What Send really put on the wire is read back from the kernel's NLMSG_ERROR echo (length, type, flags, port id, sequence, payload) for payload lengths 0..8970 and arbitrary flags/types outside the live rtnetlink range, also through caller-supplied read buffers that the reply fills exactly; concurrent Send histories {call, return, value} must be linearizable as a counter; datagrams of every length 0..64 (and longer, ACK-shaped) from a non-kernel sender must yield an error and no message while a later kernel reply is still received; AuditClient.Receive must reject < 16 bytes and otherwise return the header type and everything after 16 bytes, never reading past the input.",
    note="Trusted base: the running kernel's netlink_ack/echo behaviour and user-to-user delivery for root (verified on this image; inconclusive if sockets cannot be opened), porcupine v1.3.0."),
  "C09": dict(engine="logenc", cat="exploration", ref="§5 C09",
    technique="unique-value retention oracle over the JSON-flattened event + file-summary mirror oracle, generated events and an exhaustive st_mode sweep",
